@@ -86,6 +86,28 @@ CaseOut(svcs, isolate, srcIsMe, dst, proto) ==
   /\ CfgValid(svcs)
   /\ act' = [name |-> "out", svcs |-> svcs, isolate |-> isolate, srcisme |-> srcIsMe, dst |-> dst, proto |-> proto,
              tomesh |-> OutboundToMesh(isolate, srcIsMe, dst)]
+(* ---- ICMPv6 messages that QUOTE a packet.                                                                       *)
+(* An ICMPv6 error message (types 1..4: destination unreachable, packet too big, time exceeded, parameter problem)   *)
+(* carries as much of the packet it complains about as fits.  Those quoted bytes are the sender's choice.  Whatever   *)
+(* they spell - the protocol and port of a configured service, a packet the local host really sent to that router,    *)
+(* a connection of the sender that was admitted - the message is an ICMPv6 packet from `who` and the property judges   *)
+(* it as such: protocol 58, no port, "exactly that protocol".  The only history that admits it without an icmp6/ping6 *)
+(* service is the established-flow reading for ICMPv6 itself: the local host sent an ICMPv6 packet to that router.     *)
+(* R concretises: kind "error" = types 1..4, "info" = every other type; the quoted protocol/port of "svc i" = one of  *)
+(* Keys(svcs[i]), of "unserved" = a pair no service has; direction of the quoted addresses, lengths, remote ports.     *)
+IcmpKinds == {"error", "info"}
+QuoteHists == {"made-up",      \* nothing happened before
+               "opened",       \* the local host sent exactly the quoted packet to `who` before (an outbound entry exists)
+               "seen",         \* `who` sent the packet the quote mirrors before (admitted or refused, as the policy says)
+               "pinged"}       \* the local host sent an ICMPv6 packet to `who` before: the established flow of ICMPv6
+QuoteWhats(svcs) == {"unserved"} \cup (IF Len(svcs) >= 1 THEN {"svc1"} ELSE {}) \cup (IF Len(svcs) >= 2 THEN {"svc2"} ELSE {})
+CaseIcmp(svcs, isolate, who, kind, what, hist, fl) ==
+  /\ phase = "start" /\ phase' = "done"
+  /\ CfgValid(svcs) /\ NamesOK(svcs, fl)
+  /\ what \in QuoteWhats(svcs)
+  /\ act' = [name |-> "icmp", svcs |-> svcs, isolate |-> isolate, who |-> who, proto |-> 58, dport |-> 0,
+             variant |-> "icmp-quote", kind |-> kind, what |-> what, hist |-> hist, flow |-> (hist = "pinged"), friends |-> fl,
+             totun |-> InboundToTun(svcs, isolate, who, 58, 0, "ok", hist = "pinged", fl)]
 CaseBadCfg(svcs) ==
   /\ phase = "start" /\ phase' = "done"
   /\ ~CfgValid(svcs)
@@ -110,6 +132,11 @@ Next == phase = "start" /\ (
               CaseIn(svcs, isolate, who, proto, dport, "ok", TRUE, "none")
         \/ \E svcs \in {<<>>} \cup {<<Service("tcp", 80, "public")>>}, isolate \in BOOLEAN, srcIsMe \in BOOLEAN, dst \in OutDsts, proto \in Protos :
               CaseOut(svcs, isolate, srcIsMe, dst, proto)
+        \* ICMPv6 messages quoting a packet, against every configuration; under isolation against a few
+        \/ \E svcs \in Configs, who \in Senders, kind \in IcmpKinds, what \in {"svc1", "svc2", "unserved"}, hist \in QuoteHists :
+              CaseIcmp(svcs, FALSE, who, kind, what, hist, "both")
+        \/ \E svcs \in Few \cup {<<Service("icmp6", 0, "friends")>>}, who \in Senders, kind \in IcmpKinds, what \in {"svc1", "unserved"}, hist \in QuoteHists, fl \in FriendLists :
+              CaseIcmp(svcs, TRUE, who, kind, what, hist, fl)
         \/ \E svcs \in Configs : CaseBadCfg(svcs))
 Spec == Init /\ [][Next]_vars
 
@@ -122,6 +149,9 @@ TcpIsTcp == act.name = "in" /\ act.totun /\ ~act.flow /\ Len(act.svcs) = 1 /\ ac
 UdpIsUdp == act.name = "in" /\ act.totun /\ ~act.flow /\ Len(act.svcs) = 1 /\ act.svcs[1].scheme = "udp" => act.proto = 17
 IsolationHolds == act.name = "out" /\ act.tomesh /\ act.isolate => act.dst = "f1"
 NoSpoofing == act.name = "out" /\ act.tomesh => act.srcisme
+(* what an ICMPv6 message quotes buys nothing: without the local host having pinged the sender it needs an icmp6/ping6 service *)
+QuoteBuysNothing == act.name = "icmp" /\ act.totun /\ act.hist # "pinged" =>
+                      \E i \in DOMAIN act.svcs : act.svcs[i].scheme \in {"icmp6", "ping6"} /\ Admits(act.svcs[i], act.who, act.friends)
 
 DumpEdge == PrintT("EDGE " \o ToJson(phase) \o "\t" \o ToJson(act') \o "\t" \o ToJson(<<phase', act'>>))
 =============================================================================
